@@ -1151,7 +1151,7 @@ func (s *scen) settle() {
 	s.pending = 0
 }
 
-var reqKinds = []string{"a", "v", "l", "av", "al", "av", "al", "avl", "vl", "x", "ax", "0", "va"}
+var reqKinds = []string{"a", "v", "l", "av", "al", "av", "al", "avl", "vl", "x", "ax", "0", "va", "0"}
 var reqLabels = []string{"_", "cam", "scr"}
 var streamLabels = []string{"cam", "cam", "scr", "_", "vid"}
 var specs = []string{"a", "v", "av", "av", "va", "avv", "vav", "vv", "vva", "aav"}
@@ -1544,6 +1544,21 @@ var corpus = [][]string{
 	// a member moves to another group while a push that lists it is pending
 	{"join 0 g p", "join 1 g v", "request 1 _=av", "offer 0 s1 cam - av", "leave 1", "join 1 h v", "request 1 _=av",
 		"track 0 s1 0 a", "track 0 s1 1 v", "settle", "leave 1", "join 1 g v", "request 1 _=av"},
+	// the request map: an explicit empty entry for a label is "nothing of that label", not "use the default";
+	// an absent label uses the default entry; an empty default leaves only the labelled entries
+	{"join 0 g p", "join 1 g v", "join 2 g v", "request 1 scr=0,_=av", "request 2 cam=0,scr=v", "offer 0 s1 scr - av",
+		"track 0 s1 0 a", "track 0 s1 1 v", "offer 0 s2 cam - av", "track 0 s2 0 a", "track 0 s2 1 v", "settle",
+		"request 1 scr=v,_=0", "settle", "request 1 cam=0,_=a", "settle", "request 2 cam=0,scr=0,_=al", "settle",
+		"offer 0 s3 scr s1 av", "track 0 s3 0 a", "track 0 s3 1 v", "settle"},
+	// a stream is replaced by one of which the subscriber requests nothing: the replaced stream must still be closed
+	{"join 0 g p", "join 1 g v", "join 2 g v", "request 1 _=a", "request 2 _=av", "offer 0 s1 cam - av", "track 0 s1 0 a",
+		"track 0 s1 1 v", "settle", "offer 0 s2 cam s1 v", "track 0 s2 0 v", "settle", "close 0 s2", "settle"},
+	// the replacement is closed again before its delayed push
+	{"join 0 g p", "join 1 g v", "request 1 _=av", "offer 0 s1 cam - av", "track 0 s1 0 a", "track 0 s1 1 v", "settle",
+		"offer 0 s2 cam s1 av", "close 0 s2", "settle"},
+	// two replacements in a row, the second before the delayed push of the first: the first stream must go too
+	{"join 0 g p", "join 1 g v", "request 1 _=av", "offer 0 s1 cam - av", "track 0 s1 0 a", "track 0 s1 1 v", "settle",
+		"offer 0 s2 cam s1 av", "offer 0 s3 cam s2 av", "track 0 s3 0 a", "track 0 s3 1 v", "settle"},
 	// a member that joins and requests between a publisher's offer and the arrival of its tracks
 	{"join 0 g p", "offer 0 s1 cam - av", "join 1 g v", "request 1 _=av", "track 0 s1 0 a", "track 0 s1 1 v", "settle"},
 }
